@@ -186,15 +186,15 @@ func runC04(res *lib.Result, tier string, seed int64, args []string) error {
 // selectionRange), definition, references, highlight — must lie inside the document: line below the
 // line count, columns not beyond the end of their line, start not after end
 func c04E2E(res *lib.Result, tier string, root *lib.Rng) error {
-	n := 25
+	n := 60
 	if tier == "thorough" {
 		n = 1200
 	}
 	for wi := 0; wi < n; wi++ {
 		r := root.Fork(uint64(4400000 + wi))
 		var src string
-		if wi%2 == 0 {
-			src = genC19File(r, "q")
+		if wi%3 != 0 {
+			src = genC19File(r, "q") + genC19File(r.Fork(7), "r")
 		} else {
 			src = genScopeProgram(r)
 		}
